@@ -749,6 +749,44 @@ pub fn gen_program(r: &mut Rng, cfg: &GenCfg) -> Program {
         attempts += 1;
         try_add_op(r, cfg, &mut st);
     }
+    // half of the programs: make the root depend on every dangling node (sum each to [1] and add them up), so that
+    // deep/wide graphs are differentiated as a whole; the other half keeps dead branches, i.e. nodes whose consumers
+    // are not part of the differentiated graph
+    if r.chance(1, 2) && !cfg.all_custom {
+        let n = st.p.nodes.len();
+        let mut used = vec![false; n];
+        for nd in &st.p.nodes {
+            if let Node::Op { args, .. } = nd {
+                for a in args {
+                    used[*a] = true;
+                }
+            }
+        }
+        let dangling: Vec<usize> = (0..n).filter(|i| !used[*i]).collect();
+        if dangling.len() > 1 {
+            let mut acc: Option<usize> = None;
+            for d in dangling {
+                let rank = st.refv[d].dims.len();
+                let k = OpKind::Sum(rank);
+                let t = k.apply_ref(&[&st.refv[d]]).unwrap();
+                if !t.max_abs().is_finite() || t.max_abs() > 1e6 {
+                    continue;
+                }
+                st.p.op(k, &[d]);
+                st.refv.push(t);
+                let s = st.p.nodes.len() - 1;
+                acc = Some(match acc {
+                    None => s,
+                    Some(a) => {
+                        let t = OpKind::Add.apply_ref(&[&st.refv[a], &st.refv[s]]).unwrap();
+                        st.p.op(OpKind::Add, &[a, s]);
+                        st.refv.push(t);
+                        st.p.nodes.len() - 1
+                    }
+                });
+            }
+        }
+    }
     if st.p.n_ops() == 0 {
         // always possible
         let k = OpKind::Neg;
